@@ -175,8 +175,10 @@ def hand_assemble(data):
 
     data = copy.deepcopy(data)
 
+    from gym_gridverse.utils.custom import import_if_custom
+
     def objs(names):
-        return [grid_object_registry.from_name(n) for n in names]
+        return [grid_object_registry.from_name(import_if_custom(n)) for n in names]
 
     def conv(d):
         d = dict(d)
@@ -202,7 +204,7 @@ def hand_assemble(data):
     import functools
 
     def mk(registry, d):
-        fn = registry[d['name']]
+        fn = registry[import_if_custom(d['name'])]
         return functools.partial(fn, **only(fn, conv(d)))
 
     def mkterm(d):
@@ -216,7 +218,11 @@ def hand_assemble(data):
     rew = functools.partial(rf.reduce_sum, reward_functions=[mk(rf.reward_function_registry, r) for r in data['reward_functions']])
     obs = mk(of.observation_function_registry, data['observation_function'])
     term = mkterm(data['terminating_function'])
-    h, w = data['reset_function']['shape']
+    if 'shape' in data['reset_function']:
+        h, w = data['reset_function']['shape']
+    else:
+        probe = reset()
+        h, w = probe.grid.shape.as_tuple
     (y0, y1), (x0, x1) = data['observation_function']['area']
     area = Area((y0, y1), (x0, x1))
     acts = [Action[a] for a in (data.get('action_space') or [a.name for a in Action])]
